@@ -179,11 +179,21 @@ fn cli_case(ctx: &Ctx, ch: &mut Ch, scratch: &cli::Scratch, launches: usize) -> 
             ctx.inconclusive("cli: a run was still going after 10 s");
             continue;
         }
+        if first.status >= 1000 {
+            // Killed by a signal (stack exhaustion on a divergent program): the runtime's message
+            // contains a thread id, so the outputs are not comparable.
+            ctx.inconclusive("cli: the run was ended by a signal (divergent program)");
+            continue;
+        }
         if sub == "check" {
             diag_count = String::from_utf8_lossy(&first.stderr).matches("[Error]").count();
         }
         for k in 1..launches {
             let again = cli::run(sub, &scratch.dir, "input.g").map_err(|e| Failure::new(e, "cli"))?;
+            if again.status == cli::TIMEOUT_STATUS || again.status >= 1000 {
+                ctx.inconclusive("cli: a repeated run timed out or was ended by a signal");
+                break;
+            }
             if again != first {
                 let (a, b) = (String::from_utf8_lossy(&first.stderr).into_owned(), String::from_utf8_lossy(&again.stderr).into_owned());
                 let mut la: Vec<&str> = a.split("\n\n").collect();
